@@ -36,6 +36,21 @@ def run_scenario(acc, sc):
     def bad(sig, detail):
         acc.violation("C12:" + sig, detail + f" | role={role} hb={hb} phase={phase:.2f} script={script}", case)
 
+    if sc.get("second"):
+        # the scenario runs on the SECOND connection of the same object (the first ended by connection loss)
+        b.link.break_("eof")
+        b.w.idle()
+        b.w.advance(1.01)
+        if role == "acceptor":
+            b.link = b.w.attach_server_only()
+        else:
+            b.w.connect_client()
+            b.link = b.w.link
+        b.feed(b.frame("A", ep._session.next_num_in, [(98, 0), (108, hb)]))
+        if ep.connection_state.name != "ACTIVE":
+            bad("setup/second-logon", f"second connection did not reach ACTIVE: {ep.connection_state.name}")
+            b.close()
+            return
     state = {"seq": ep._session.next_num_in, "answers": 0, "pending_tr": [], "sent_tr_ids": [], "w_seen": len(b.link.writers[b.side].written)}
     writer = b.link.writers[b.side]
     reader = b.link.readers[b.side]
@@ -53,6 +68,17 @@ def run_scenario(acc, sc):
         if when != "post":
             return
         p = ref_parse(data)
+        if ref_get(p, 35) == "2":
+            # a well-behaved peer answers the endpoint's ResendRequest: its lost frames were administrative -> GapFill
+            lo = int(ref_get(p, 7))
+
+            def fill(lo=lo):
+                if b.disconnected() or ep._socket_reader is None:
+                    return
+                reader.feed(b.frame("4", lo, [(123, "Y"), (36, state["seq"])], possdup=True))
+            state["resend_requests"] = state.get("resend_requests", 0) + 1
+            if script[0] != "slow-replay":
+                loop.call_later(0.05, fill)
         if ref_get(p, 35) == "1":
             tid = ref_get(p, 112)
             trs.append((loop.time(), tid))
@@ -62,6 +88,8 @@ def run_scenario(acc, sc):
                 d = delay_f * hb
 
                 def answer(tid=tid):
+                    if len(script) > 4 and script[4]:
+                        state["seq"] += 1  # a frame of the peer was lost right before its answer
                     if idkind == "right":
                         feed("0", [(112, tid)])
                     elif idkind == "wrong":
@@ -100,12 +128,28 @@ def run_scenario(acc, sc):
             for i in range(n):
                 loop.call_later(over * hb * (i + 1) / n, lambda: feed("0"))
         elif kind == "peer-testreq":
-            _, pf = script
+            pf = script[1]
+            lossy = len(script) > 2 and script[2]
             p = max(pf * hb, 0.05)
             k = 1
             while k * p < horizon:
-                loop.call_later(k * p, lambda k=k: (state["sent_tr_ids"].append(f"PEER-{k}"), feed("1", [(112, f"PEER-{k}")])))
+                def tr(k=k):
+                    if lossy and k % 2 == 0:
+                        state["seq"] += 1  # the frame before this TestRequest was lost
+                    state["sent_tr_ids"].append(f"PEER-{k}")
+                    feed("1", [(112, f"PEER-{k}")])
+                loop.call_later(k * p, tr)
                 k += 1
+        elif kind == "slow-replay":
+            # the peer skips numbers, the endpoint asks for a resend, the peer replays slowly but steadily
+            _, nmsgs, pf = script
+            first = state["seq"]
+            state["seq"] += nmsgs
+            feed("D", [(11, "after-the-gap")])  # numbered first+nmsgs: reveals the gap
+            for i in range(nmsgs + 1):
+                loop.call_later((i + 1) * pf * hb, lambda i=i: (None if b.disconnected() or ep._socket_reader is None else reader.feed(
+                    b.frame("D", first + i, [(11, f"replayed-{i}")], possdup=True))))
+            state["replay_until"] = (nmsgs + 1) * pf * hb
         if sc.get("own_traffic"):
             from asyncfix import FMsg
             from asyncfix.message import FIXMessage
@@ -183,6 +227,18 @@ def run_scenario(acc, sc):
                     bad(f"wrong-id/disconnect-time/{idkind}", f"wrong TestReqID at t0+{t_ans - t0:.2f}, disconnected at t0+{t_disc - t0:.2f}")
                 if not any(abs(t - t_ans) < 1e-3 for t in logouts):
                     bad(f"wrong-id/no-logout/{idkind}", f"no Logout written when the wrong TestReqID arrived (t0+{t_ans - t0:.2f}); logouts at {[round(t - t0, 2) for t in logouts]}")
+        elif kind == "slow-replay":
+            until = state["replay_until"]
+            gap_frames = script[2] * hb
+            if gap_frames <= hb - 1.5:
+                early = [t for t in [t_disc] if t is not None and t - t0 <= until + 1e-6]
+                if early:
+                    bad("live/disconnected-during-replay", f"peer replays a gap with one frame every {gap_frames:.2f} s (hb={hb}), yet the endpoint disconnected at t0+{t_disc - t0:.2f} while the replay ran until t0+{until:.2f}")
+                dels = [str(pl.get(11, "")) for k, pl, t in ep.events if k == "msg" and t >= t0 and str(pl.get(11, "")).startswith("replayed")]
+                # the last replayed frame re-sends the number of the message that revealed the gap: delivered or not is FREE here
+                want = [f"replayed-{i}" for i in range(script[1])]
+                if t_disc is None and [d for d in dels if d != f"replayed-{script[1]}"] != want:
+                    bad("replay/not-delivered", f"replayed messages delivered: {dels}, expected {want} in order, once each")
         elif kind == "peer-testreq":
             p = max(script[1] * hb, 0.05)
             got = [ref_get(pp, 112) for t, pp in frames if ref_get(pp, 35) == "0" and ref_get(pp, 112) is not None]
@@ -190,11 +246,11 @@ def run_scenario(acc, sc):
             if t_disc is None:
                 if got != sent:
                     bad("peer-testrequest/answers", f"peer sent TestRequests {sent[:6]}..., Heartbeats echo {got[:6]}... ({len(got)} vs {len(sent)})")
-            if p <= hb - 1.5 and (trs or t_disc is not None):
+            if p <= hb - 1.5 and (trs or t_disc is not None) and not (len(script) > 2 and script[2]):
                 bad("live/testrequest-to-live-peer", f"peer sends a TestRequest every {p:.2f} s yet TestRequest/disconnect happened (trs={len(trs)}, disc={t_disc})")
         nt = bool(trs)
         acc.case((role, hb, round(phase, 3), tuple(script), sc.get("own_traffic", False)) if nt else None,
-                 cls=[f"script={kind}", f"role={role}", "hb<3" if hb < 3 else "hb>=3"] + (["testrequest-written"] if trs else []) + (["disconnected"] if t_disc is not None else []),
+                 cls=[f"script={kind}", f"role={role}", "hb<3" if hb < 3 else "hb>=3"] + (["second-connection"] if sc.get("second") else []) + (["lossy-peer"] if (kind == "answer" and len(script) > 4 and script[4]) or (kind == "peer-testreq" and len(script) > 2 and script[2]) else []) + (["testrequest-written"] if trs else []) + (["disconnected"] if t_disc is not None else []),
                  sample={"role": role, "hb": hb, "phase": round(phase, 3), "script": list(script), "testrequests_at": [round(t - t0, 2) for t, _ in trs][:4],
                          "disconnected_at": None if t_disc is None else round(t_disc - t0, 2)} if nt and len(acc.samples) < 6 and kind in ("silent", "answer") else None)
     finally:
@@ -210,9 +266,12 @@ script = st.one_of(
     st.tuples(st.just("answer"), st.sampled_from([0.0, 0.1, 0.5, 0.9, 1.0, 1.5, 1.9, 2.2]), st.sampled_from(["right", "right", "wrong", "wrong-low", "wrong-one", "nonnumeric", "missing"])),
     st.tuples(st.just("peer-testreq"), st.sampled_from([0.3, 0.6, 0.9, 1.7])),
     st.tuples(st.just("answer"), st.sampled_from([0.5, 0.9, 1.2, 1.5, 1.9]), st.just("right"), st.sampled_from([0.05, 0.3, 0.6, 1.0])),
+    st.tuples(st.just("answer"), st.sampled_from([0.0, 0.5, 0.9, 1.5]), st.just("right"), st.none(), st.just(True)),
+    st.tuples(st.just("peer-testreq"), st.sampled_from([0.3, 0.6, 0.9]), st.just(True)),
+    st.tuples(st.just("slow-replay"), st.integers(3, 8), st.sampled_from([0.3, 0.5, 0.8])),
 )
 scenario = st.fixed_dictionaries({"role": st.sampled_from(["acceptor", "initiator"]), "hb": hbs, "phase": st.floats(0, 0.999), "script": script,
-                                  "own_traffic": st.sampled_from([False, False, False, True])})
+                                  "own_traffic": st.sampled_from([False, False, False, True]), "second": st.sampled_from([False, False, True])})
 
 
 def hyp_shard(acc, n, seed):
@@ -224,8 +283,11 @@ def grid(acc, role):
     for hb in (1, 2, 3, 5, 30):
         for phase in (0.0, 0.37, 0.99):
             for sc in ([("silent",)] + [("periodic", f, "0") for f in (0.3, 0.9, 1.1)] + [("answer", d, k) for d in (0.0, 0.9, 1.9) for k in ("right", "wrong", "wrong-low", "missing")]
-                       + [("peer-testreq", 0.6)] + [("burst", 3, 1.0)] + [("answer", 1.5, "right", 0.3), ("answer", 1.9, "right", 0.6)]):
+                       + [("peer-testreq", 0.6)] + [("burst", 3, 1.0)] + [("answer", 1.5, "right", 0.3), ("answer", 1.9, "right", 0.6)]
+                       + [("answer", 0.5, "right", None, True), ("peer-testreq", 0.6, True), ("slow-replay", 6, 0.5)]):
                 run_scenario(acc, {"role": role, "hb": hb, "phase": phase, "script": sc, "own_traffic": False})
+            for sc in [("silent",), ("answer", 0.9, "right"), ("periodic", 0.3, "0")]:
+                run_scenario(acc, {"role": role, "hb": hb, "phase": phase, "script": sc, "own_traffic": False, "second": True})
     acc.klass("grid")
 
 
